@@ -6,6 +6,9 @@ use crate::trees::TreeKind;
 pub use crate::props::quadprops::{C05, C13};
 pub use crate::props::c08::C08;
 pub use crate::props::c17::C17;
+pub use crate::props::c19::C19;
+pub use crate::props::c12::C12;
+pub use crate::props::derived::{C10, C11};
 
 pub const C01: SeqExact = SeqExact { id: "C01", kinds: &TreeKind::QUAD_PLAIN };
 pub const C02: SeqExact = SeqExact { id: "C02", kinds: &TreeKind::QUAD_HUFF };
@@ -29,6 +32,10 @@ macro_rules! with_prop {
             "C08" => { let $p = &$crate::registry::C08; $body }
             "C17" => { let $p = &$crate::registry::C17; $body }
             "C09" => { let $p = &$crate::registry::C09; $body }
+            "C10" => { let $p = &$crate::registry::C10; $body }
+            "C11" => { let $p = &$crate::registry::C11; $body }
+            "C12" => { let $p = &$crate::registry::C12; $body }
+            "C19" => { let $p = &$crate::registry::C19; $body }
             other => {
                 eprintln!("unknown property {other}");
                 std::process::exit(2);
